@@ -126,6 +126,7 @@ class State:
         self.trace = []
         self.approx = []
         self.panics = []
+        self.frames = []      # inlined calls: tuples (fn, suffix, return_block, dst_place_text)
 
     def fork(self):
         s = State()
@@ -137,6 +138,7 @@ class State:
         s.trace = list(self.trace)
         s.approx = list(self.approx)
         s.panics = list(self.panics)
+        s.frames = list(self.frames)
         return s
 
 
@@ -161,9 +163,14 @@ class Path:
 # ------------------------------------------------------------------------------------------ executor
 class Exec:
     def __init__(self, fn, models, bound=3, variant_index=None, fresh_types=None, consts=None, max_paths=20000,
-                 stop_at=None, on_stop=None, mf=None):
+                 stop_at=None, on_stop=None, mf=None, inline=None, max_depth=12):
         self.fn = fn
         self.mf = mf
+        self.inline = inline          # None = never inline; otherwise a regex: crate-local callees matching it are executed inline
+        self.max_depth = max_depth
+        self.frame_fns = {"": fn}
+        self.nframes = 0
+        self.inlined = set()
         self.models = models                 # list of (regex, callable(ex, st, argv, dst, callee) -> [(value, [constraints], event|None)])
         self.bound = bound
         self.variant_index = dict(DEFAULT_VARIANTS)
@@ -176,6 +183,20 @@ class Exec:
         self.paths = []
         self.queries = 0
         self.solver_time = 0.0
+
+    # ---- frames (inlined calls): locals of an inlined callee live in the same environment under `_N@<frame>`
+    def F(self, st):
+        return st.frames[-1][0] if st.frames else self.fn
+
+    def sfx(self, st):
+        return st.frames[-1][1] if st.frames else ""
+
+    def q(self, st, root):
+        return root + self.sfx(st) if re.match(r"^_\d+$", root) else root
+
+    def fn_of_root(self, root):
+        i = root.find("@")
+        return self.frame_fns.get(root[i:] if i >= 0 else "", self.fn)
 
     # ---- fresh values
     def fresh_bv(self, name, w):
@@ -285,10 +306,12 @@ class Exec:
 
     def _get_root(self, st, root):
         if root not in st.env:
-            ty = self.fn.types.get(root)
+            fn = self.fn_of_root(root)
+            base = root.split("@")[0]
+            ty = fn.types.get(base)
             if ty is None:
                 raise Unsupported("read of unknown local " + root)
-            st.env[root] = self.fresh_of_type(ty, self.fn.debug_of.get(root, root))
+            st.env[root] = self.fresh_of_type(ty, fn.debug_of.get(base, base))
         v = st.env[root]
         if isinstance(v, tuple) and v and v[0] == "lazyref":
             v = self.materialise(st, v)
@@ -296,7 +319,11 @@ class Exec:
         return v
 
     def read(self, st, place):
-        root, projs = place if isinstance(place, tuple) else self.parse_place(place)
+        if isinstance(place, tuple):
+            root, projs = place
+        else:
+            root, projs = self.parse_place(place)
+            root = self.q(st, root)
         return self._read(st, root, list(projs))
 
     def _read(self, st, root, projs):
@@ -359,7 +386,16 @@ class Exec:
         return v
 
     def write(self, st, place, val):
-        root, projs = place if isinstance(place, tuple) else self.parse_place(place)
+        if isinstance(val, tuple) and len(val) == 4 and val[0] == "ADV":
+            # a model's alternative that also updates the place behind a reference: ("ADV", ref, new value, result)
+            _, ref, newv, result = val
+            self._write(st, ref.root, list(ref.projs), newv)
+            val = result
+        if isinstance(place, tuple):
+            root, projs = place
+        else:
+            root, projs = self.parse_place(place)
+            root = self.q(st, root)
         self._write(st, root, list(projs), val)
 
     def _write(self, st, root, projs, val):
@@ -402,17 +438,18 @@ class Exec:
         raise Unsupported("update through %r" % (pr,))
 
     # ---- operands
-    def place_type(self, place_txt):
+    def place_type(self, place_txt, st=None):
         place_txt = place_txt.strip()
+        fn = self.F(st) if st is not None else self.fn
         if re.match(r"^_\d+$", place_txt):
-            return self.fn.types.get(place_txt)
+            return fn.types.get(place_txt)
         m = re.match(r"^\(.*: ([^()]*(?:\([^()]*\))?[^()]*)\)$", place_txt)
         if m:
             parts = split_top(place_txt[1:-1], ": ")
             return ": ".join(parts[1:]) if len(parts) >= 2 else None
         m = re.match(r"^\(\*(_\d+)\)$", place_txt)
         if m:
-            t = self.fn.types.get(m.group(1), "")
+            t = fn.types.get(m.group(1), "")
             return re.sub(r"^&(?:'\w+ )?(?:mut )?", "", t)
         return None
 
@@ -422,14 +459,14 @@ class Exec:
         if o.startswith("no_retag "):
             o = o[9:]
         if o.startswith("move ") or o.startswith("copy "):
-            return self.read(st, o[5:]), self.place_type(o[5:])
+            return self.read(st, o[5:]), self.place_type(o[5:], st)
         if o.startswith("const "):
-            return self.const(o[6:].strip())
+            return self.const(o[6:].strip(), st)
         if re.match(r"^[A-Za-z_][\w]*(::[\w<>{}#, ]+)+$", o) and not o.startswith("_"):
             return Opaque("fn " + o[:60]), None       # a function item / constructor passed by name
-        return self.read(st, o), self.place_type(o)
+        return self.read(st, o), self.place_type(o, st)
 
-    def const(self, c):
+    def const(self, c, st=None):
         if c in ("true", "false"):
             return (TRUE if c == "true" else FALSE), "bool"
         m = re.match(r"^(-?\d+)_(\w+)$", c)
@@ -457,14 +494,26 @@ class Exec:
                 return val, None
         if c.startswith("ZeroSized"):
             return Opaque("zst"), None
+        pm = re.search(r"promoted\[(\d+)\]$", c)
+        if pm and self.mf is not None:
+            pv = self.mf.promoted_value(self.F(st) if st is not None else self.fn, pm.group(1))
+            if pv is not None:
+                if pv[0] == "enum":
+                    return Enum(pv[1]), None
+                if pv[0] == "bytes":
+                    return PyVec([bv(x, 8) for x in pv[1]]), None
+                if pv[0] == "named":
+                    return self.const(pv[1], st)
         if self.mf is not None and re.match(r"^[A-Za-z_][\w:]*$", c):
-            # a named integer constant of the crate: evaluate its const item from the MIR dump
+            # a named numeric constant of the crate: evaluate its const item from the MIR dump
             segs = c.split("::")
             for name in ("::".join(segs[-2:]), segs[-1]):
                 try:
                     val, ty = self.mf.const_value(re.escape(name))
                     if ty in INT_W:
                         return bv(val, INT_W[ty]), ty
+                    if ty == "f64":
+                        return z3.FPVal(val, z3.Float64()), "f64"
                 except Exception:  # noqa: BLE001
                     continue
         return Opaque("const " + c[:80]), None
@@ -507,6 +556,7 @@ class Exec:
         m = re.match(r"^&(?:raw (?:const|mut) )?(?:mut )?(?:fake shallow )?(.*)$", rhs)
         if m and not rhs.startswith("&&"):
             root, projs = self.parse_place(m.group(1))
+            root = self.q(st, root)
             # normalise `&(*_x)` to the reference itself when it is one
             if projs and projs[-1] == ("deref",):
                 inner = self._read(st, root, projs[:-1])
@@ -527,9 +577,13 @@ class Exec:
             return Tup([self.operand(st, a)[0] for a in split_top(rhs[1:-1], ", ")])
         if rhs == "()":
             return Tup([])
-        m = re.match(r"^\{closure@.*\}(?: \{ (.*) \})?$", rhs) or re.match(r"^\{coroutine@.*\}", rhs)
+        m = re.match(r"^\{closure@[^}]*\}(?: \{ (.*) \})?$", rhs) or re.match(r"^\{coroutine@.*\}", rhs)
         if m:
-            return Struct("closure", {})
+            caps = {}
+            if m.lastindex and m.group(1):
+                for i, f in enumerate(split_top(m.group(1), ", ")):
+                    caps[i] = self.operand(st, f.split(": ", 1)[1])[0]
+            return Struct("closure", caps)
         # enum variant / struct aggregate:  path::Variant(args)  |  path::Variant  |  Name { f: v, .. }
         m = re.match(r"^([\w:<>, '&\[\]()]*?)(\w+)(?:::<[^{}]*>)? \{ (.*) \}$", rhs)
         if m and ": " in m.group(3):
@@ -658,12 +712,14 @@ class Exec:
     def describe(self, st, local_or_txt, depth=0):
         txt = local_or_txt
 
+        fn, sx = self.F(st), self.sfx(st)
+
         def repl(m):
             loc = m.group(0)
-            if loc in self.fn.debug_of:
-                return self.fn.debug_of[loc]
-            if depth < 3 and loc in st.defs:
-                return "(" + self.describe(st, st.defs[loc], depth + 1) + ")"
+            if loc in fn.debug_of:
+                return fn.debug_of[loc]
+            if depth < 3 and (loc + sx) in st.defs:
+                return "(" + self.describe(st, st.defs[loc + sx], depth + 1) + ")"
             return loc
         txt = re.sub(r"\b(copy|move|const) ", "", txt)
         txt = re.sub(r"_\d+\b", repl, txt)
@@ -689,16 +745,17 @@ class Exec:
         self.paths.append(Path(kind, st, ret, info))
 
     def exec_block(self, bb, st, start=0):
+        sx = self.sfx(st)
         if start == 0:
-            if bb in self.stop_at:
+            if not st.frames and bb in self.stop_at:
                 self.end("stop", st, None, self.stop_at[bb])
                 return
-            st.visits[bb] = st.visits.get(bb, 0) + 1
-            if st.visits[bb] > self.bound:
+            st.visits[sx + bb] = st.visits.get(sx + bb, 0) + 1
+            if st.visits[sx + bb] > self.bound:
                 self.end("bound", st, None, bb)
                 return
-            st.trace.append(bb)
-        stmts = self.fn.blocks[bb]
+            st.trace.append(sx + bb)
+        stmts = self.F(st).blocks[bb]
         for si in range(start, len(stmts)):
             s = stmts[si]
             if re.match(r"^(StorageLive|StorageDead|nop|FakeRead|PlaceMention|Retag|AscribeUserType|Coverage|ConstEvalCounter|BackwardIncompatibleDropHint)\b", s):
@@ -710,6 +767,16 @@ class Exec:
             if m:
                 return self.goto(m.group(1), st)
             if s == "return;":
+                if st.frames:
+                    # return from an inlined call: hand the value to the caller's destination and continue there
+                    fn_, sx_, ret_bb, dst_txt = st.frames[-1]
+                    val = self._get_root(st, "_0" + sx_)
+                    st.frames = st.frames[:-1]
+                    if isinstance(dst_txt, tuple) and dst_txt[0] == "WRAP":
+                        val, dst_txt = Enum(dst_txt[1], [val]), dst_txt[2]
+                    if dst_txt:
+                        self.write(st, dst_txt, val)
+                    return self.goto(ret_bb, st)
                 return self.end("return", st, self._get_root(st, "_0"))
             if s == "unreachable;":
                 return
@@ -737,7 +804,7 @@ class Exec:
             m = re.match(r"^(.+?) = (.*);$", s)
             if m:
                 dst, rhs = m.group(1), m.group(2)
-                val = self.rvalue(st, rhs, self.place_type(dst))
+                val = self.rvalue(st, rhs, self.place_type(dst, st))
                 if isinstance(val, tuple) and val and val[0] == "fork-enum":
                     # discriminant of an undecided enum: decide it here (fork over the alternatives), then re-run this block
                     _, place_txt, sym = val
@@ -749,7 +816,7 @@ class Exec:
                         self.stack.append((bb, n, si))
                     return
                 if re.match(r"^_\d+$", dst):
-                    st.defs[dst] = rhs
+                    st.defs[dst + sx] = rhs
                 self.write(st, dst, val)
                 continue
             raise Unsupported("statement " + s[:160])
@@ -781,7 +848,7 @@ class Exec:
                     return self.goto(tgt, st)
             return
         loc = disc_txt.replace("move ", "").replace("copy ", "").strip()
-        desc = self.describe(st, st.defs.get(loc, loc))
+        desc = self.describe(st, st.defs.get(loc + self.sfx(st), loc))
         feas = [(k, tgt, cond) for k, tgt, cond in arms if self.feasible(st.pc, cond)]
         for k, tgt, cond in reversed(feas):
             n = st.fork() if len(feas) > 1 else st
@@ -790,10 +857,75 @@ class Exec:
                 n.events.append("%s -> %s" % (desc, k))
             self.goto(tgt, n)
 
+    def push_frame(self, st, fn, argv, dst, nxt):
+        if len(st.frames) >= self.max_depth:
+            raise Unsupported("inlining depth exceeded at " + fn.header[:80])
+        if len(fn.args) != len(argv):
+            raise Unsupported("argument count mismatch inlining " + fn.header[:80])
+        self.nframes += 1
+        sx = "@%d" % self.nframes
+        self.frame_fns[sx] = fn
+        self.inlined.add(fn.header.split("(")[0][3:])
+        for a, v in zip(fn.args, argv):
+            st.env[a + sx] = v
+        st.frames = st.frames + [(fn, sx, nxt, dst)]
+        self.goto("bb0", st)
+
+    def try_higher_order(self, st, dst, callee, argv, nxt):
+        """Option/Result adaptors taking a crate-local closure: unwrap_or_else, map, map_err, and_then. The closure body is inlined."""
+        if self.inline is None or self.mf is None or nxt.startswith("unwind"):
+            return False
+        m = re.match(r"^(?:std::(?:option|result)::)?(Option|Result)::<.*>::(unwrap_or_else|map|map_err|and_then)::<.*\{closure@([^}]*)\}>$", callee)
+        if not m or not argv or not isinstance(argv[0], Enum):
+            return False
+        kind, method, loc = m.group(1), m.group(2), m.group(3)
+        v = argv[0]
+        clos = argv[1] if len(argv) > 1 else Opaque("closure")
+        good = v.variant in ("Some", "Ok")
+        fn = self.mf.resolve_closure(loc)
+        if fn is None:
+            return False
+        if method == "unwrap_or_else":
+            if good:
+                self.write(st, dst, v.fields[0])
+                self.goto(nxt, st)
+            else:
+                self.push_frame(st, fn, [clos] + (list(v.fields) if kind == "Result" else []), dst, nxt)
+            return True
+        if method in ("map", "and_then"):
+            if not good:
+                self.write(st, dst, v)
+                self.goto(nxt, st)
+                return True
+            if method == "and_then":
+                self.push_frame(st, fn, [clos] + list(v.fields), dst, nxt)
+                return True
+            # map: result must be re-wrapped after the closure returns: route through a wrapper marker
+            self.push_frame(st, fn, [clos] + list(v.fields), ("WRAP", v.variant, dst), nxt)
+            return True
+        if method == "map_err":
+            if good:
+                self.write(st, dst, v)
+                self.goto(nxt, st)
+                return True
+            self.push_frame(st, fn, [clos] + list(v.fields), ("WRAP", "Err", dst), nxt)
+            return True
+        return False
+
+    def try_inline(self, st, dst, callee, argv, nxt):
+        """Execute a crate-local callee inline (its MIR is in the same dump). Returns False if it cannot be resolved."""
+        if self.inline is None or self.mf is None or nxt.startswith("unwind"):
+            return False
+        if not re.search(self.inline, callee):
+            return False
+        fn = self.mf.resolve_callee(callee)
+        if fn is None:
+            return False
+        self.push_frame(st, fn, argv, dst, nxt)
+        return True
+
     def do_call(self, st, dst, callee, args, nxt, stmt):
         cands = [f for pat, f in self.models if re.search(pat, callee)]
-        if not cands:
-            raise Unsupported("call " + callee[:200])
         argv = [self.operand(st, a)[0] for a in split_top(args, ", ")] if args.strip() else []
         alts = None
         for model in cands:
@@ -801,7 +933,11 @@ class Exec:
             if alts is not None:
                 break
         if alts is None:
-            raise Unsupported("model declined call " + callee[:200])
+            if self.try_higher_order(st, dst, callee, argv, nxt):
+                return
+            if self.try_inline(st, dst, callee, argv, nxt):
+                return
+            raise Unsupported(("model declined call " if cands else "call ") + callee[:200])
         if nxt.startswith("unwind"):
             # diverging call (panic helpers)
             p = st.fork()
@@ -819,7 +955,7 @@ class Exec:
             if dst:
                 self.write(n, dst, val)
                 if re.match(r"^_\d+$", dst):
-                    n.defs[dst] = re.sub(r"::<.*?>", "", callee.split("::")[-1]) + "(" + args + ")"
+                    n.defs[dst + self.sfx(n)] = re.sub(r"::<.*?>", "", callee.split("::")[-1]) + "(" + args + ")"
             self.goto(nxt, n)
 
 
@@ -1001,6 +1137,123 @@ def m_int_try_from(ex, st, a, dst, callee):
     res = z3.Extract(wt - 1, 0, v) if wf >= wt else (z3.SignExt(wt - wf, v) if frm in SIGNED else z3.ZeroExt(wt - wf, v))
     return [(Enum("Ok", [res]), [fits], "try_from fits %s" % to), (Enum("Err", [Opaque("TryFromIntError")]), [z3.Not(fits)], "try_from out of %s range" % to)]
 
+
+# ---- std comparison / float helpers (used when crate-local comparators are executed inline)
+ORD = ("Less", "Equal", "Greater")
+
+
+def _dv(ex, st, x):
+    return deref_val(ex, st, x) if isinstance(x, Ref) else x
+
+
+def m_ord_cmp(ex, st, a, dst, callee):
+    m = re.search(r"<(\w+) as Ord>::cmp$", callee)
+    if not m or m.group(1) not in INT_W:
+        return None
+    x, y = _dv(ex, st, a[0]), _dv(ex, st, a[1])
+    if not (isinstance(x, z3.BitVecRef) and isinstance(y, z3.BitVecRef)):
+        return None
+    signed = m.group(1) in SIGNED
+    lt = (x < y) if signed else z3.ULT(x, y)
+    gt = (x > y) if signed else z3.UGT(x, y)
+    return [(Enum("Less"), [lt], None), (Enum("Equal"), [x == y], None), (Enum("Greater"), [gt], None)]
+
+
+def m_f64_partial_cmp(ex, st, a, dst, callee):
+    x, y = _dv(ex, st, a[0]), _dv(ex, st, a[1])
+    if not (isinstance(x, z3.FPRef) and isinstance(y, z3.FPRef)):
+        return None
+    return [(Enum("Some", [Enum("Less")]), [z3.fpLT(x, y)], None), (Enum("Some", [Enum("Equal")]), [z3.fpEQ(x, y)], None),
+            (Enum("Some", [Enum("Greater")]), [z3.fpGT(x, y)], None), (Enum("None"), [z3.Or(z3.fpIsNaN(x), z3.fpIsNaN(y))], None)]
+
+
+def m_f64_pred(fn):
+    def f(ex, st, a, dst, callee):
+        x = _dv(ex, st, a[0])
+        if not isinstance(x, z3.FPRef):
+            return None
+        return [(b2bv(fn(x)), [], None)]
+    return f
+
+
+def m_f64_trunc(ex, st, a, dst, callee):
+    x = _dv(ex, st, a[0])
+    if not isinstance(x, z3.FPRef):
+        return None
+    return [(z3.fpRoundToIntegral(z3.RTZ(), x), [], None)]
+
+
+def m_ordering_reverse(ex, st, a, dst, callee):
+    v = _dv(ex, st, a[0])
+    if isinstance(v, Enum) and v.variant in ORD:
+        return [(Enum({"Less": "Greater", "Greater": "Less", "Equal": "Equal"}[v.variant]), [], None)]
+    return None
+
+
+def m_ordering_is(kind):
+    table = {"is_lt": ("Less",), "is_gt": ("Greater",), "is_eq": ("Equal",), "is_le": ("Less", "Equal"), "is_ge": ("Greater", "Equal"), "is_ne": ("Less", "Greater")}
+
+    def f(ex, st, a, dst, callee):
+        v = _dv(ex, st, a[0])
+        if isinstance(v, Enum) and v.variant in ORD:
+            return [(TRUE if v.variant in table[kind] else FALSE, [], None)]
+        return None
+    return f
+
+
+def m_unit_enum_eq(negate):
+    def f(ex, st, a, dst, callee):
+        x, y = _dv(ex, st, a[0]), _dv(ex, st, a[1])
+        for idx, v in ((0, x), (1, y)):
+            if isinstance(v, SymEnum) and isinstance(a[idx], Ref) and all(not flds for _, flds in v.alts):
+                other = y if idx == 0 else x
+                if isinstance(other, Enum) and not other.fields:
+                    # decide the undecided unit enum here: one alternative per variant
+                    return [(("ADV", a[idx], Enum(var), TRUE if ((var == other.variant) != negate) else FALSE), [], "%s is %s" % (v.name, var))
+                            for var, _ in v.alts]
+        if isinstance(x, Enum) and isinstance(y, Enum) and not x.fields and not y.fields:
+            r = x.variant == y.variant
+            return [(TRUE if (r != negate) else FALSE, [], None)]
+        return None
+    return f
+
+
+def m_option_unwrap_or(ex, st, a, dst, callee):
+    v = a[0]
+    if isinstance(v, Enum) and v.variant == "Some":
+        return [(v.fields[0], [], None)]
+    if isinstance(v, Enum) and v.variant == "None":
+        return [(a[1], [], None)]
+    return None
+
+
+def m_option_map_reverse(ex, st, a, dst, callee):
+    v = a[0]
+    if "Ordering::reverse" not in callee:
+        return None
+    if isinstance(v, Enum) and v.variant == "Some":
+        inner = v.fields[0]
+        if isinstance(inner, Enum) and inner.variant in ORD:
+            return [(Enum("Some", [Enum({"Less": "Greater", "Greater": "Less", "Equal": "Equal"}[inner.variant])]), [], None)]
+    if isinstance(v, Enum) and v.variant == "None":
+        return [(v, [], None)]
+    return None
+
+
+STD_CMP_MODELS = [
+    (r"<\w+ as Ord>::cmp$", m_ord_cmp),
+    (r"<f64 as PartialOrd>::partial_cmp$", m_f64_partial_cmp),
+    (r"f64>::is_nan$|f64::is_nan$", m_f64_pred(z3.fpIsNaN)),
+    (r"f64>::is_finite$|f64::is_finite$", m_f64_pred(lambda x: z3.Not(z3.Or(z3.fpIsNaN(x), z3.fpIsInf(x))))),
+    (r"f64>::is_infinite$|f64::is_infinite$", m_f64_pred(z3.fpIsInf)),
+    (r"f64>::trunc$|f64::trunc$", m_f64_trunc),
+    (r"Ordering::reverse$", m_ordering_reverse),
+    (r"Ordering::is_lt$", m_ordering_is("is_lt")), (r"Ordering::is_gt$", m_ordering_is("is_gt")), (r"Ordering::is_eq$", m_ordering_is("is_eq")),
+    (r"Ordering::is_le$", m_ordering_is("is_le")), (r"Ordering::is_ge$", m_ordering_is("is_ge")), (r"Ordering::is_ne$", m_ordering_is("is_ne")),
+    (r"<[\w:]+ as PartialEq>::eq$", m_unit_enum_eq(False)), (r"<[\w:]+ as PartialEq>::ne$", m_unit_enum_eq(True)),
+    (r"Option::<.*>::unwrap_or$", m_option_unwrap_or),
+    (r"Option::<std::cmp::Ordering>::map::<", m_option_map_reverse),
+]
 
 GENERIC_MODELS = [
     (r"<\w+ as TryFrom<\w+>>::try_from$", m_int_try_from),
